@@ -149,7 +149,7 @@ package shimagent
 //@   modifies mstate(addrof(s.mu)), mapof(s.certs), mapof(s.upstreamSSHCACertCache)
 //@   let f0 = old(calls(filter))
 //@   let g0 = old(calls(ExtendedAgent.SignWithFlags))
-//@   let c0 = old(calls(keyutil.CastSSHPublicKeyToCertificate))
+//@   let c0 = old(calls(CastSSHPublicKeyToCertificate))
 //@   ensures unheld(s) && inv(s)
 //@   ensures [locked-refuses] old(s.locked) ==> (result0 == nil && result1 != nil && calls(ExtendedAgent.SignWithFlags) == g0 && calls(filter) == f0)
 //@   ensures [nil-key-refused] (!old(s.locked) && key == nil) ==> (result0 == nil && result1 != nil && calls(ExtendedAgent.SignWithFlags) == g0 && calls(filter) == f0)
@@ -157,18 +157,18 @@ package shimagent
 //@   ensures [purge-failure-surfaces] (!old(s.locked) && key != nil && ret(filter, f0, 2) != nil) ==> (result0 == nil && result1 == ret(filter, f0, 2) && calls(ExtendedAgent.SignWithFlags) == g0)
 //@   ensures [at-most-one-underlying-signature] calls(ExtendedAgent.SignWithFlags) <= g0 + 1
 //@   ensures [in-memory-certificate-signs-with-its-plain-key] (!old(s.locked) && key != nil && ret(filter, f0, 2) == nil &&
-//@     ret(keyutil.CastSSHPublicKeyToCertificate, c0, 1) == nil && (keyhash(key) in dom(s.certs))) ==>
+//@     ret(CastSSHPublicKeyToCertificate, c0, 1) == nil && (keyhash(key) in dom(s.certs))) ==>
 //@     (calls(ExtendedAgent.SignWithFlags) == g0 + 1 && arg(ExtendedAgent.SignWithFlags, g0, 0) == s.agent &&
-//@      arg(ExtendedAgent.SignWithFlags, g0, 1) == ret(keyutil.CastSSHPublicKeyToCertificate, c0, 0).Key &&
+//@      arg(ExtendedAgent.SignWithFlags, g0, 1) == ret(CastSSHPublicKeyToCertificate, c0, 0).Key &&
 //@      arg(ExtendedAgent.SignWithFlags, g0, 2) == data && arg(ExtendedAgent.SignWithFlags, g0, 3) == flags &&
 //@      result0 == ret(ExtendedAgent.SignWithFlags, g0, 0) && result1 == ret(ExtendedAgent.SignWithFlags, g0, 1))
 //@   ensures [hidden-upstream-certificate-is-not-found] (!old(s.locked) && key != nil && ret(filter, f0, 2) == nil &&
-//@     ret(keyutil.CastSSHPublicKeyToCertificate, c0, 1) == nil && !(keyhash(key) in dom(s.certs)) &&
-//@     keyid.decOK(ret(keyutil.CastSSHPublicKeyToCertificate, c0, 0).KeyId) && s.noUpstreamSSHCACert) ==>
+//@     ret(CastSSHPublicKeyToCertificate, c0, 1) == nil && !(keyhash(key) in dom(s.certs)) &&
+//@     keyid.decOK(ret(CastSSHPublicKeyToCertificate, c0, 0).KeyId) && s.noUpstreamSSHCACert) ==>
 //@     (result0 == nil && result1 == errAgentNotFoundKey && calls(ExtendedAgent.SignWithFlags) == g0)
 //@   ensures [everything-else-passes-through-unchanged] (!old(s.locked) && key != nil && ret(filter, f0, 2) == nil &&
-//@     (ret(keyutil.CastSSHPublicKeyToCertificate, c0, 1) != nil ||
-//@      (!(keyhash(key) in dom(s.certs)) && !(keyid.decOK(ret(keyutil.CastSSHPublicKeyToCertificate, c0, 0).KeyId) && s.noUpstreamSSHCACert)))) ==>
+//@     (ret(CastSSHPublicKeyToCertificate, c0, 1) != nil ||
+//@      (!(keyhash(key) in dom(s.certs)) && !(keyid.decOK(ret(CastSSHPublicKeyToCertificate, c0, 0).KeyId) && s.noUpstreamSSHCACert)))) ==>
 //@     (calls(ExtendedAgent.SignWithFlags) == g0 + 1 && arg(ExtendedAgent.SignWithFlags, g0, 0) == s.agent && arg(ExtendedAgent.SignWithFlags, g0, 1) == key &&
 //@      arg(ExtendedAgent.SignWithFlags, g0, 2) == data && arg(ExtendedAgent.SignWithFlags, g0, 3) == flags &&
 //@      result0 == ret(ExtendedAgent.SignWithFlags, g0, 0) && result1 == ret(ExtendedAgent.SignWithFlags, g0, 1))
